@@ -19,7 +19,7 @@ import numpy as np
 from vf import geom, hexconv
 
 ID = "C14"
-BUDGET = {"quick": 2600, "thorough": 75000}
+BUDGET = {"quick": 2400, "thorough": 60000}
 MIN_KEYS = 200
 REQUIRED = [
     "judged:renumbering:hex:single", "judged:renumbering:hex:neighbours",
@@ -477,7 +477,10 @@ def run_case(ctx, case):
 
     base = observe(ctx, kind, via, pts, cells, junctions)
     if mode == "grid" and base.neighbour_links == 0:
-        raise AssertionError("assembly without neighbours")  # harness error, never silently trivial
+        # the library bound no neighbours in an assembly whose cells share whole sides: nothing "with neighbours" can
+        # be judged here (REQUIRED judged:*:neighbours counters then make the run INCONCLUSIVE, never silently held)
+        ctx.count("unjudged:library-bound-no-neighbours")
+        return
 
     # ---- renumbering -----------------------------------------------------------------------------------
     if mode == "single":
@@ -575,7 +578,8 @@ def run_stretch(ctx, case):
             pts[:, d] *= f
         obs[d] = observe(ctx, "hex", via, apply_map(g, pts), cells)
     if n > 1 and obs[None].neighbour_links == 0:
-        raise AssertionError("assembly without neighbours")
+        ctx.count("unjudged:library-bound-no-neighbours")
+        return
     if any(o.degenerate or o.grid is None for o in obs.values()):
         if all(o.degenerate for o in obs.values()):
             ctx.count("unjudged:degenerate-error-on-both-sides")
@@ -598,6 +602,7 @@ def run_stretch(ctx, case):
     desc = (f"n={n} side={side} factor={f} renum={case['renum']} axis={case['axis']} angle={case['angle']} shift={case['shift']} "
             f"via {via}: q(cube)={q0!r}, q(stretched along 0,1,2)={qd!r}")
     ctx.count("judged:stretch:not-lower", 3)
+    ctx.count("observed:stretch-raised-the-value", sum(1 for q in qd if q > q0 + tol(q, q0, ncells)))
     if any(q < q0 - tol(q, q0, ncells) for q in qd):
         ctx.violation(f"stretch-lowers:hex:{nbr}", f"stretching a cube lowers the quality value: {desc}")
     ctx.count("judged:stretch:same-rise", 3)
